@@ -203,6 +203,10 @@ class MultiStepReplayBuffer(ReplayBuffer):
         :return: TensorDict containing sampled experiences
         :rtype: TensorDict
         """
+        # Indices may arrive as a column (PrioritizedReplayBuffer.sample returns them with
+        # shape (batch, 1)); the rows must come back with the same leading shape as the
+        # 1-step batch they are paired with
+        idxs = torch.as_tensor(idxs).reshape(-1)
         return self.storage[idxs]
 
     def _get_n_step_info(self) -> TensorDict:
